@@ -804,6 +804,14 @@ class ValueDate(Value):
 @functools.total_ordering
 class ValueDecimal(Value):
     def __init__(self, value):
+        # always a double: math.floor and friends hand back ints
+        if not isinstance(value, float):
+            try:
+                value = float(value)
+            except OverflowError:
+                raise CklRuntimeError(
+                    ValueString("ERROR"), "Int is too large for a decimal"
+                )
         self.value = value
 
     def __hash__(self):
